@@ -10,7 +10,11 @@ sequence; they are conditional on the cancellation facts of run.go (`Facts.all`)
 
 Not proved (runtime, supported by the harness only): that the Go scheduler lets the watcher
 goroutine and every VM run within a bounded time after the cancellation (the model counts steps,
-not seconds), and that native (host) code returns. -/
+not seconds), and that native (host) code returns. Known finding (open, replayed by the harness
+in a child process): a function value that native code calls from a goroutine *of its own* and
+that is interrupted by the cancellation panics with the context's error in that goroutine, where
+nothing recovers it — the host process dies; the `callback` frames of the model are the
+synchronous case only, where the panic crosses the native code into the calling VM. -/
 namespace ScriggoV.Cancel
 open ScriggoV.Gen.Blocking
 
